@@ -13,4 +13,10 @@ KF_C09(o, site, exp) ==
   IF o.op = "IntegerDivide" /\ "float" \in {o.an.t, o.bn.t} /\ exp.k = "unit" /\ r.k = "val" /\ r.v.t = "int"
      /\ r.v.v \in {2147483647, -2147483647 - 1}
   THEN "C09-float-intdiv-saturates" ELSE "NEW"
+(* C01-simple-symlist-with-number: SimpleGarnishData stores a symbol list as a vector of symbols only, so chaining a
+   symbol with a number (`:a . 0`, `5 . :a`), which the runtime defines as a symbol list and BasicGarnishData
+   implements, fails with "Cannot create symbol list from types" (data/src/runtime.rs merge_to_symbol_list). *)
+KF_Run(prop, why, o, r) ==
+  IF prop = "C01" /\ r.store = "simple" /\ r.status = "err" /\ "msgk" \in DOMAIN r /\ r.msgk = "Cannot create symbol list from types"
+  THEN "C01-simple-symlist-with-number" ELSE "NEW"
 ==============================================================================
